@@ -4,7 +4,7 @@ STD = "crates/pocketscion/src/network/scion/routing/spec/standard.rs"
 SPEC = "crates/pocketscion/src/network/scion/routing/spec.rs"
 
 PROP = {
-    "level": "proof",
+    "level": "model_checking",
     "clauses": [
         "StandardValidator::validate_segment_change [P]: accepted (arrival link, departure link) pairs == table derived "
         "from the SCION segment-combination rules (up-core, up-down, core-down, up-peer, peer-down = {core->child, "
